@@ -157,6 +157,8 @@ struct Cfg15 {
     /// (the execution is abandoned after a short timeout and yields no case); without it the window
     /// is entered and the case shows the lost write.
     probe: bool,
+    /// run exactly one execution: this schedule prefix, then always the lowest enabled thread
+    forced: Option<Vec<usize>>,
     fx: bool,
     name: String,
     bsz: usize,
@@ -380,6 +382,16 @@ fn interleavings(progs: &[Vec<Op>]) -> f64 {
 
 fn run_cfg(cfg: &Cfg15) -> Vec<CaseOut> {
     let mut outs = vec![];
+    if let Some(prefix) = &cfg.forced {
+        let ex = {
+            let mut ch = prefix_chooser(prefix);
+            run_one(cfg, &mut ch)
+        };
+        let mut c = emit(cfg, &ex);
+        c.tags.push("forced-schedule".into());
+        outs.push(c);
+        return outs;
+    }
     if cfg.probe {
         // T1 draws its time; T0 draws its time and logs (parks at persist:append:after_wal);
         // T1 logs, pushes, flushes; T0 pushes; both finish
@@ -433,19 +445,39 @@ fn corpus(chunks: usize, fx: bool) -> Vec<Cfg15> {
     let del = |id, s, ts: &[u64]| Op::Del { id, s, ts: ts.to_vec() };
     let mut v = vec![];
     // (a) one tuple, insert vs delete: logical time order vs apply order (enumerated: 252 schedules)
-    v.push(Cfg15 { probe: false, fx, name: "insert-vs-delete-same-tuple".into(), bsz: 0, progs: vec![vec![ins(1, 0, &[5])], vec![del(2, 0, &[5])]], exhaustive: true, budget: 300, seed: 0 });
+    v.push(Cfg15 { forced: None, probe: false, fx, name: "insert-vs-delete-same-tuple".into(), bsz: 0, progs: vec![vec![ins(1, 0, &[5])], vec![del(2, 0, &[5])]], exhaustive: true, budget: 300, seed: 0 });
+    // an ACKNOWLEDGED DELETE IS LOST (found by the C17 thorough tier): the delete of 101 draws its
+    // logical time and is logged first, the insert of [100,101] draws a later time, is logged and
+    // applied, then the delete is applied: it finds 101 (returns 1) and the served relation is
+    // {100,102}; recovery lets the insert's later time win and 101 is back after a restart
     if fx {
-        v.push(Cfg15 { probe: true, fx, name: "append-window-probe".into(), bsz: 2, progs: vec![vec![ins(1, 0, &[1])], vec![ins(2, 0, &[2, 3])]], exhaustive: true, budget: 1, seed: 0 });
+        v.push(Cfg15 {
+            forced: Some(vec![0, 0, 0, 0, 0, 0, 1, 1, 1, 1, 0, 0]),
+            probe: false,
+            fx,
+            name: "acked-delete-lost".into(),
+            bsz: 0,
+            progs: vec![vec![ins(1, 0, &[102]), del(2, 0, &[101])], vec![ins(3, 0, &[100, 101])]],
+            exhaustive: true,
+            budget: 1,
+            seed: 0,
+        });
+    }
+    for c in 0..chunks.min(2) {
+        v.push(Cfg15 { forced: None, probe: false, fx, name: format!("delete-vs-insert-batch-{c}"), bsz: 0, progs: vec![vec![ins(1, 0, &[102]), del(2, 0, &[101])], vec![ins(3, 0, &[100, 101])]], exhaustive: false, budget: 25, seed: 500 + c as u64 });
+    }
+    if fx {
+        v.push(Cfg15 { forced: None, probe: true, fx, name: "append-window-probe".into(), bsz: 2, progs: vec![vec![ins(1, 0, &[1])], vec![ins(2, 0, &[2, 3])]], exhaustive: true, budget: 1, seed: 0 });
     }
     for c in 0..chunks {
         // (b) append window vs explicit save
-        v.push(Cfg15 { probe: false, fx, name: format!("append-vs-save-{c}"), bsz: 0, progs: vec![vec![ins(1, 0, &[1, 2])], vec![ins(2, 0, &[3]), Op::Flush { id: 3, s: 0 }]], exhaustive: false, budget: 40, seed: 100 + c as u64 });
+        v.push(Cfg15 { forced: None, probe: false, fx, name: format!("append-vs-save-{c}"), bsz: 0, progs: vec![vec![ins(1, 0, &[1, 2])], vec![ins(2, 0, &[3]), Op::Flush { id: 3, s: 0 }]], exhaustive: false, budget: 40, seed: 100 + c as u64 });
         // (c) append window vs the flush another append triggers (buffer_size 2)
-        v.push(Cfg15 { probe: false, fx, name: format!("append-vs-autoflush-{c}"), bsz: 2, progs: vec![vec![ins(1, 0, &[1])], vec![ins(2, 0, &[2, 3])]], exhaustive: false, budget: 40, seed: 200 + c as u64 });
+        v.push(Cfg15 { forced: None, probe: false, fx, name: format!("append-vs-autoflush-{c}"), bsz: 2, progs: vec![vec![ins(1, 0, &[1])], vec![ins(2, 0, &[2, 3])]], exhaustive: false, budget: 40, seed: 200 + c as u64 });
         // (d) two relations, three writers
-        v.push(Cfg15 { probe: false, fx, name: format!("two-relations-{c}"), bsz: 3, progs: vec![vec![ins(1, 0, &[1, 2])], vec![ins(2, 1, &[1]), del(3, 0, &[2])], vec![del(4, 1, &[1])]], exhaustive: false, budget: 25, seed: 300 + c as u64 });
+        v.push(Cfg15 { forced: None, probe: false, fx, name: format!("two-relations-{c}"), bsz: 3, progs: vec![vec![ins(1, 0, &[1, 2])], vec![ins(2, 1, &[1]), del(3, 0, &[2])], vec![del(4, 1, &[1])]], exhaustive: false, budget: 25, seed: 300 + c as u64 });
         // (e) compaction against writers
-        v.push(Cfg15 { probe: false, fx, name: format!("writers-vs-compact-{c}"), bsz: 0, progs: vec![vec![ins(1, 0, &[1]), del(2, 0, &[1])], vec![ins(3, 0, &[1, 4]), Op::Compact { id: 4, s: 0 }]], exhaustive: false, budget: 25, seed: 400 + c as u64 });
+        v.push(Cfg15 { forced: None, probe: false, fx, name: format!("writers-vs-compact-{c}"), bsz: 0, progs: vec![vec![ins(1, 0, &[1]), del(2, 0, &[1])], vec![ins(3, 0, &[1, 4]), Op::Compact { id: 4, s: 0 }]], exhaustive: false, budget: 25, seed: 400 + c as u64 });
     }
     v
 }
@@ -478,7 +510,7 @@ fn gen_config(rng: &mut Rng, idx: usize, per: usize, fx: bool) -> Cfg15 {
         progs.push(p);
     }
     let exhaustive = interleavings(&progs) <= per as f64;
-    Cfg15 { probe: false, fx, name: format!("random-{idx}"), bsz, progs, exhaustive, budget: per, seed: rng.next() }
+    Cfg15 { forced: None, probe: false, fx, name: format!("random-{idx}"), bsz, progs, exhaustive, budget: per, seed: rng.next() }
 }
 
 fn main() {
